@@ -262,6 +262,32 @@ PROPS = {
                         'Gen/Consts.v regenerated from the Go source by kvharness translate (minWaitScrapeTimes, relief threshold table as exact '
                         'binary64)',
                         'Go map iteration = any permutation, weightedrand.Pick = any eligible shard (Base/Sched.v)']},
+    'C11': {
+        'engines': [('inject', 300, 6000, ['-shardsize', '50'])],
+        'rule': 'one PRNG: configuration TEXTS with/without global (+external labels), 0-2 rule files, alerting with an Alertmanager using none/basic/'
+                'authorization/bearer credentials, 0-3 (0-5) jobs each with scheme, path, interval/timeout, sample limit, honor flags, 0-2 params, '
+                'metric relabeling, relabeling, one of none/basic_auth/authorization/bearer_token/oauth2 (unique secret tokens), tls_config, '
+                'proxy_url, any subset of static/kubernetes/dns/file discovery; 0-2 remote_write and 0-1 remote_read entries with none/basic/'
+                'authorization/bearer secrets; assignment of 0-3 targets per job (labels shuffled: address, job, instance, optional __scheme__, '
+                '__metrics_path__, prefixed invalid name, __param_ override, zone), sometimes for a job that does not exist; sidecar proxy URL '
+                'set 3/4; self-monitoring 1/3 with three pod-name shapes. The text is accepted by the real ConfigManager, given to the REAL '
+                'Injector (ApplyConfig, UpdateTargets) after a HISTORY of 0-2 earlier configurations/assignments on the same injector (fresh ones, '
+                'or copies differing only in external labels / in a non-job secret / in the assignment); the written file is loaded with '
+                'config.Load and projected like the input; non-job sections are compared as generic documents and as loaded structs; the file '
+                'is searched for every job secret. non-trivial = >= 1 job; distinct by input',
+        'theorems': 'C11_jobs C11_names C11_job_fields C11_static_entry C11_no_job_secret C11_rest C11_sections_kept',
+        'trusted_base': ['Model/Inject.v hand-written from injector.go at the granularity of the property: ingestion-relevant settings, relabeling and TLS '
+                         'are opaque fingerprints computed by the same Go projection on input and output; tie = exact equality of the projected job list '
+                         'with the model\'s, on the real injector, after histories',
+                         'YAML printing/parsing and the validity of the written file are observed (config.Load succeeds), not modelled'],
+        'assumptions': ['target labels do not use the three routing parameter names (__param__hash/_jobName/_scheme)',
+                        'label names made valid by the prefix: only names that become valid that way (leading digit) can be shipped; others make the file invalid (see C02)'],
+        'level_text': 'Proof: for every option set, job list and assignment the model output satisfies the property predicate jobs_ok (same jobs in order, '
+                      'static entries = assigned targets with routing params, http via the proxy, credentials/TLS removed, no secret value, ingestion '
+                      'settings kept, self-monitor only when enabled) and every non-job section is the origin\'s. The same predicate is evaluated '
+                      'on the real injector\'s output. Partial: "is a valid Prometheus configuration" and YAML rendering are observed, not proved.',
+        'level_note': 'Trusted: Coq kernel; hand-written model at field granularity; Go projection functions; config library parsing.',
+    },
     'C15': {
         'engines': [('thash', 160, 4000, ['-shardsize', '10'])],
         'rule': 'one PRNG: a scrape job (scheme http/https, 3 paths, 0-2 params) and one target group (0-2 group labels, 1-3 (1-5) targets over 7 '
@@ -396,6 +422,8 @@ def classify(prop, engine, case):
         return 'C20-explore-other'
     if engine == 'store':
         return 'C09-store-%s' % (case.get('observed') or {}).get('Seen')
+    if engine == 'inject':
+        return 'C11-inject'
     if engine == 'cfghash':
         return 'C16-' + str((case.get('observed') or {}).get('Name'))
     if engine == 'thash':
